@@ -28,10 +28,20 @@ LEVEL_TEXT = (
     "rule with the complete sine series is exact on degree <= n-1 (fejer2_corrected_exact); the weights of the code are those "
     "minus the contribution of the term j = (n+1)//2 (fejer2_code_weights_defect); on the Chebyshev-U basis the code loses "
     "exactly the component of degree m* = 2((n+1)//2) - 2 (fejer2_code_defect), hence is not exact for any n >= 2 "
-    "(fejer2_code_not_exact) and exact below m* (fejer2_code_exact_below)."
+    "(fejer2_code_not_exact) and exact below m* (fejer2_code_exact_below). Round 3: all 26 constructor bodies and "
+    "OneDGrid.__init__ are regenerated statement by statement (Gen/OneDCtor.lean: argument guards with their exception class, the "
+    "warning, the call of leggauss / chebgauss / roots_chebyu / roots_genlaguerre as named primitives, the element-wise "
+    "post-processing of nodes and weights, reversal, the d == 1/5/9 chain, default parameters, the domain tuple, the arguments of "
+    "super().__init__; Clenshaw-Curtis / Fejer 1 / Fejer 2 additionally entry by entry in Gen/OneDFormulas.lean) and proved equal "
+    "to the model constructors the other theorems are about (*_ctor_eq_make, for every npoints and every parameter; wrappers and "
+    "...General classes under 'the routine returns a non-empty array'); OneDGrid.__init__ accepts exactly the grids whose points "
+    "lie in [lo - 1e-7, hi + 1e-7] with the regenerated constant and comparisons (onedgrid_init_accepts_iff, _rejects_below, "
+    "_rejects_above, _no_domain, _empty, _descending); every npoints guard: the regenerated constructors accept exactly the "
+    "admissible sizes (*_ctor_accepts_iff: npoints >= 2; Simpson and Tanh-Sinh odd >= 3; the six other substitution rules odd >= 1 "
+    "and h > 0)."
 )
-TECHNIQUE = "Lean 4 proof over R on constructors/formulas/bounds regenerated from the source + differential correspondence of all 26 constructors (repeated, interleaved, mutated, typed inputs) + exact-moment oracle"
-GEN = ["onedgrid"]
+TECHNIQUE = "Lean 4 proof over R on constructors (all 26 bodies and OneDGrid.__init__ statement by statement) / formulas / bounds regenerated from the source + differential correspondence of all 26 constructors (repeated, interleaved, mutated, typed inputs, fresh process, threshold neighbourhoods) + exact-moment and exact-rational domain oracle"
+GEN = ["onedgrid", "onedctor"]
 LEAN_MODULES = [
     "GridVerif.Props.C01.NewtonCotes",
     "GridVerif.Props.C01.Fejer",
@@ -44,6 +54,9 @@ LEAN_MODULES = [
     "GridVerif.Props.C01.Strip",
     "GridVerif.Props.C01.Shape",
     "GridVerif.Props.C01.StripShape",
+    "GridVerif.Props.C01.Ctor",
+    "GridVerif.Props.C01.CtorSeries",
+    "GridVerif.Props.C01.Init",
 ]
 _T = {
     "NewtonCotes": ["trapezoid_exact", "midpoint_exact", "simpson_exact"],
@@ -67,6 +80,19 @@ _T = {
               "chebyshevlobatto_weights_formula", "rectanglesine_weights_formula",
               "trefethen_poly_shape", "trefethen_poly_reject", "trefethencc_shape"],
     "StripShape": ["trefethen_strip_shape", "trefethenstripcc_shape"],
+    # round 3: the constructors regenerated statement by statement (Gen/OneDCtor.lean) are the model constructors
+    "Ctor": [f"{c}_ctor_eq_make" for c in ("trapezoidal", "simpson", "midpoint", "uniforminteger", "chebyshevlobatto", "rectanglesine",
+                                           "tanhsinh", "expsinh", "logexpsinh", "expexp", "singletanh", "singleexp", "singlearcsinhexp",
+                                           "gausslegendre", "gausschebyshev", "gausschebyshevtype2", "gausslaguerre",
+                                           "trefethengeneral", "trefethenstripgeneral")] + ["dergstripAt_eq"],
+    "CtorSeries": ["cc_gen_points_eq", "cc_gen_weights_eq", "clenshawcurtis_ctor_eq_make", "fejer1_gen_points_eq", "fejer1_gen_weights_eq",
+                   "fejerfirst_ctor_eq_make", "fejer2_gen_points_eq", "fejer2_gen_weights_eq", "fejersecond_ctor_eq_make"],
+    "Init": ["onedgrid_init_eq_model", "oneDGrid_ok_iff", "onedgrid_init_accepts_iff", "onedgrid_init_rejects_below",
+             "onedgrid_init_rejects_above", "onedgrid_init_no_domain", "onedgrid_init_empty", "onedgrid_init_descending"]
+            + [f"{c}_ctor_accepts_iff" for c in ("trapezoidal", "midpoint", "uniforminteger", "chebyshevlobatto", "rectanglesine",
+                                                 "clenshawcurtis", "fejerfirst", "fejersecond", "simpson", "tanhsinh", "expsinh",
+                                                 "logexpsinh", "expexp", "singletanh", "singleexp", "singlearcsinhexp")]
+            + ["trefethencc_ctor_eq_make", "trefethenstripcc_ctor_eq_make", "trefethengc2_ctor_eq_make", "trefethenstripgc2_ctor_eq_make"],
 }
 THEOREMS = [f"GridVerif.C01.{t}" for ts in _T.values() for t in ts]
 RULE = (
@@ -79,12 +105,18 @@ RULE = (
     "classes and other sizes, every object compared when built and again at the end, no two objects sharing memory, and a "
     "rebuild after the arrays of an earlier object were overwritten in place; plus every generated function/bound vs the "
     "Python expression it came from and the hand-written corrected Fejer-2 vs exact moments and vs implementation + missing "
-    "term; non-trivial = accepted rule with n >= 3 and, for parametrised rules, a non-default parameter"
+    "term; round 3: every constructor call also through the constructor regenerated statement by statement (C01.ctor), the "
+    "regenerated default parameters against the signatures, OneDGrid.__init__ itself against its regeneration with the extreme "
+    "point 0 / 0.01 / 0.5 / 0.99 / 1-1ulp / 1 / 1+1ulp / 1.01 / 2 / 100 / 1e4 slacks (1e-7) outside either end of nine domains, "
+    "NaN / inf points, empty / mismatched / integer / float32 / read-only / reversed arrays, descending and degenerate domains, no "
+    "domain; the first calls of a fresh interpreter with a non-default parameter before any default call; "
+    "non-trivial = accepted rule with n >= 3 and, for parametrised rules, a non-default parameter"
 )
 TRUSTED_BASE = [
     "Lean 4.33 kernel; axioms propext, Classical.choice, Quot.sound only (audited per theorem)",
     "translator harness/translate/onedgrid.py (AST -> Gen/OneDFormulas.lean; self-checked at Float against the source expressions on every run; the six entry-wise constructors through the constructor comparison)",
-    "hand model Model/OneD.lean: assembly of the generated entries, the series rules, Gauss wrappers, Trefethen dispatch and OneDGrid.__init__, tied by correspondence",
+    "hand model Model/OneD.lean: assembly of the generated entries, the series rules, Gauss wrappers, Trefethen dispatch and OneDGrid.__init__, tied by correspondence and (round 3) proved equal to the constructors regenerated statement by statement",
+    "translator harness/translate/onedctor.py (AST -> Gen/OneDCtor.lean) and the named primitives of Model/OneDPy.lean (np.min / np.max with NaN propagation, comparisons with an upper end that may be np.inf, Grid.__init__'s length test, issubclass / class call, warnings.warn as a no-op); every generated constructor is run by the driver against the implementation on every case of the correspondence",
     "hand-written FejerSecondCorrected (the complete sine series): not a model of the code; tied to its definition by exact moments and to the implementation by 'implementation + missing term'",
     "Elem R instance (which real function each NumPy name denotes)",
     "NumPy/SciPy Gauss nodes: leggauss, roots_genlaguerre by contract GaussExact (not verified); chebgauss, roots_chebyu by their closed forms (stated as hypotheses, compared numerically by the oracle)",
@@ -92,7 +124,8 @@ TRUSTED_BASE = [
 ASSUMPTIONS = [
     "npoints is an integer (Python or NumPy signed integer of at least 32 bits, bool) -- a float is either rejected or treated as its integer value; extra parameters are real numbers held in binary64 (NumPy float32 scalars lose precision: listed finding)",
     "rounding is not modelled: theorems are exact over R, the correspondence uses rtol 1e-11..1e-9 (1e-6 where |k*h| > 6 saturates tanh/exp)",
-    "a NaN among the points disables OneDGrid's domain check in NumPy (np.min), not in the model; generated only where every point is NaN or inside the domain",
+    "a NaN among the points disables OneDGrid's domain check in NumPy (np.min): the regenerated OneDGrid.__init__ (np.min / np.max primitives with NaN propagation) follows it and is compared on such inputs; the hand model's check does not, it is used only where every point is NaN or inside the domain",
+    "domain tuples have a finite lower end; the upper end is finite or +inf (all 26 constructors: (-1, 1) or (0, inf))",
 ]
 
 # ----------------------------------------------------------------------------------------------
@@ -535,17 +568,28 @@ def _eval_src(og, src):
     return eval(src, {"og": og, "np": np})
 
 
+def _ctor_line(line):
+    """the same constructor call, answered by the constructor regenerated statement by statement (Gen/OneDCtor.lean)"""
+    assert line.startswith("C01.make ")
+    return "C01.ctor " + line[len("C01.make "):]
+
+
 def _run_src_cases(ctx: Ctx, cases):
     og = _og()
-    model = driver_batch([c["line"] for c in cases])
-    for c, ans in zip(cases, model):
+    lines = [c["line"] for c in cases]
+    answers = driver_batch(lines + [_ctor_line(l) for l in lines])
+    model, gen = answers[:len(lines)], answers[len(lines):]
+    for c, ans, gans in zip(cases, model, gen):
         impl = _impl(lambda: _eval_src(og, c["src"]))
         mod = _parse(ans)
         rejected = isinstance(impl, str)
         ctx.count([c["src"]], nontrivial=c["nontrivial"] and not rejected and c["args"][0] >= 3,
                   tag=c["tag"] + (":" + impl if rejected else ""))
-        _compare(ctx, f"make:{c['cls']}", c["src"], impl, mod, c["rtol"], c["elementwise"],
-                 {"cls": c["cls"], "args": c["args"], "src": c["src"], "prelude": []}, allow=c["allow"])
+        w = {"cls": c["cls"], "args": c["args"], "src": c["src"], "prelude": []}
+        _compare(ctx, f"make:{c['cls']}", c["src"], impl, mod, c["rtol"], c["elementwise"], w, allow=c["allow"])
+        ctx.count(["ctor", c["src"]], nontrivial=False, tag="gen:ctor")
+        _compare(ctx, f"ctor:{c['cls']}", c["src"] + " [regenerated constructor]", impl, _parse(gans), c["rtol"], c["elementwise"], w,
+                 allow=c["allow"])
 
 
 def _repeat_specs(ctx: Ctx):
@@ -706,12 +750,207 @@ def _corr_fejer2_corrected(ctx: Ctx):
                      witness={"cls": "FejerSecond", "args": [n], "src": f"og.FejerSecond({n})", "prelude": []})
 
 
+# ----------------------------------------------------------------------------------------------
+# round 3: OneDGrid.__init__ itself (regenerated: Gen.OneD.OneDGrid.init), next to its 1e-7 slack
+# ----------------------------------------------------------------------------------------------
+def _bits_equal(a, b):
+    a, b = np.asarray(a, dtype=float), np.asarray(b, dtype=float)
+    return a.shape == b.shape and all((x == y) or (x != x and y != y) for x, y in zip(a.tolist(), b.tolist()))
+
+
+def _init_cases(ctx: Ctx):
+    """-> list of (points, weights, domain or None, tag).  Class 7: the extreme point at the offsets 0, 0.01, 0.5, 0.99, 1 - 1ulp,
+    1 (the very float `lo - 1e-7`), 1 + 1ulp, 1.01, 2, 100, 1e4 times the slack outside either end of the declared domain,
+    alone and among interior points at a random position; NaN / +-inf points; empty and mismatched arrays; descending and
+    degenerate domains; no domain."""
+    rng = ctx.rng
+    cases = []
+    domains = [(-1.0, 1.0), (0.0, math.inf), (0.0, 5.0), (2.0, 2.0), (-3.5, -1.25), (1.0e6, 1.0e6 + 1), (-1.0e-3, 1.0e-3), (0, 1), (-1, 1)]
+    facs = [0.0, 0.01, 0.5, 0.99, 1.01, 2.0, 100.0, 1.0e4]
+
+    def interior(lo, hi, k):
+        top = hi if math.isfinite(hi) else lo + 50.0
+        return [lo + (top - lo) * rng.random() for _ in range(k)]
+
+    for lo, hi in domains:
+        for side in ("below", "above"):
+            if side == "above" and not math.isfinite(hi):
+                continue
+            edge = (lo - 1e-7) if side == "below" else (hi + 1e-7)       # the float the code compares with
+            specials = [(f, (lo - f * 1e-7) if side == "below" else (hi + f * 1e-7)) for f in facs]
+            specials += [("edge", edge), ("edge-1ulp", float(np.nextafter(edge, -math.inf))), ("edge+1ulp", float(np.nextafter(edge, math.inf)))]
+            for f, x in specials:
+                k = rng.choice([0, 0, 1, 3, 8])
+                pts = interior(lo, hi, k)
+                pts.insert(rng.randrange(len(pts) + 1), x)
+                cases.append((np.array(pts), np.array([rng.uniform(-1, 2) for _ in pts]), (lo, hi), f"init:{side}:{f}"))
+    lo, hi = -1.0, 1.0
+    base = interior(lo, hi, 4)
+    cases += [
+        (np.array(base + [math.nan]), np.ones(5), (lo, hi), "init:nan"),
+        (np.array([math.nan] + base + [7.0]), np.ones(6), (lo, hi), "init:nan+outside"),
+        (np.array([math.nan, math.nan]), np.ones(2), (lo, hi), "init:nan"),
+        (np.array(base + [math.inf]), np.ones(5), (lo, hi), "init:inf"),
+        (np.array(base + [math.inf]), np.ones(5), (0.0, math.inf), "init:inf"),
+        (np.array(base + [-math.inf]), np.ones(5), (0.0, math.inf), "init:-inf"),
+        (np.array([]), np.array([]), (lo, hi), "init:empty"),
+        (np.array([]), np.array([]), None, "init:empty"),
+        (np.array([]), np.array([1.0]), None, "init:mismatch"),
+        (np.array(base), np.ones(3), (lo, hi), "init:mismatch"),
+        (np.array(base), np.ones(5), None, "init:mismatch"),
+        (np.array(base), np.ones(4), (1.0, -1.0), "init:descending"),
+        (np.array(base), np.ones(4), (1.0, float(np.nextafter(1.0, 0.0))), "init:descending"),
+        (np.array([0.5]), np.ones(1), (0.5, 0.5), "init:degenerate"),
+        (np.array(base) * 100.0, np.ones(4), None, "init:none"),
+        (np.array([3, 1, 2, 0]), np.array([1, 1, 1, 1]), (0, math.inf), "init:int"),
+        (np.array([3, 1, 2, -1]), np.array([1.0, 1, 1, 1]), (0, math.inf), "init:int"),
+        (np.array(sorted(base))[::-1], np.ones(4), (lo, hi), "init:reversed-view"),
+        (np.array(base + [1.0 + 3e-7], dtype=np.float32), np.ones(5, dtype=np.float32), (lo, hi), "init:float32"),
+    ]
+    ro = np.array(base)
+    ro.flags.writeable = False
+    cases.append((ro, np.ones(4), (lo, hi), "init:read-only"))
+    return cases
+
+
+def _corr_init(ctx: Ctx):
+    from grid.basegrid import OneDGrid
+    cases = _init_cases(ctx)
+    lines = []
+    for p, w, dom, tag in cases:
+        d = "none" if dom is None else f"dom {f2b(float(dom[0]))} " + ("inf" if dom[1] == math.inf else f2b(float(dom[1])))
+        lines.append(f"C01.init {fvec(np.asarray(p, dtype=float))} {fvec(np.asarray(w, dtype=float))} {d}")
+    for (p, w, dom, tag), ans in zip(cases, driver_batch(lines)):
+        try:
+            g = OneDGrid(p, w, dom)
+            impl = (g.points, g.weights, g.domain)
+        except ValueError:
+            impl = "value-error"
+        ctx.count([tag, [float(x) for x in np.asarray(p, dtype=float)], None if dom is None else [float(dom[0]), float(dom[1])]],
+                  nontrivial=isinstance(impl, tuple) and len(p) >= 1 and dom is not None, tag=tag.rsplit(":", 1)[0] if tag.count(":") > 1 else tag)
+        witness = {"points": [float(x) for x in np.asarray(p, dtype=float)], "weights": [float(x) for x in np.asarray(w, dtype=float)],
+                   "domain": None if dom is None else [float(dom[0]), float(dom[1])], "case": tag}
+        if not ans.startswith("ok"):
+            if impl != ans:
+                ctx.fail("corr", "init:OneDGrid", f"OneDGrid.__init__ ({tag}): implementation {'ok' if isinstance(impl, tuple) else impl}, "
+                         f"regenerated constructor {ans[:30]}", witness=witness)
+            continue
+        t = Tokens(ans)
+        t.tok()
+        mp, mw = t.fvec(), t.fvec()
+        lo_t, hi_t = t.tok(), t.tok()
+        mdom = None if lo_t == "none" else (b2f(lo_t), math.inf if hi_t == "inf" else b2f(hi_t))
+        ok = isinstance(impl, tuple) and _bits_equal(impl[0], mp) and _bits_equal(impl[1], mw) and \
+            ((impl[2] is None and mdom is None) or (impl[2] is not None and mdom is not None and tuple(float(x) for x in impl[2]) == mdom))
+        if not ok:
+            ctx.fail("corr", "init:OneDGrid", f"OneDGrid.__init__ ({tag}): implementation {'rejects' if not isinstance(impl, tuple) else 'differs'}, "
+                     f"regenerated constructor accepts", witness=witness)
+
+
+def _corr_defaults(ctx: Ctx):
+    """default values of the extra parameters: the regenerated ones against the signatures"""
+    import inspect
+    og = _og()
+    names = [c for c in ALL26 if c in PARAM_DEFAULT]
+    for cls, ans in zip(names, driver_batch([f"C01.default {c}" for c in names])):
+        pars = [p for p in inspect.signature(getattr(og, cls).__init__).parameters.values() if p.default is not inspect.Parameter.empty]
+        ctx.count(["default", cls], nontrivial=False, tag="gen:default")
+        t = Tokens(ans)
+        good = t.tok() == "ok" and len(pars) == 1
+        if good:
+            v = pars[0].default
+            tok = t.tok()
+            good = (int(tok) == v) if pars[0].name == "d" else (b2f(tok) == float(v))
+        if not good:
+            ctx.fail("corr", f"ctor:{cls}", f"default parameter of {cls}: signature {[(p.name, p.default) for p in pars]}, regenerated {ans[:40]}",
+                     witness={"cls": cls, "args": [7], "src": f"og.{cls}(7" + (", og.MidPoint" if "General" in cls else "") + ")", "prelude": []})
+
+
+FRESH = """import warnings, json, struct, sys; warnings.filterwarnings('ignore')
+import numpy as np
+from grid import onedgrid as og
+out = []
+for src in json.loads(sys.argv[1]):
+    try:
+        g = eval(src, {'og': og, 'np': np})
+        out.append([[struct.unpack('>Q', struct.pack('>d', float(x)))[0] for x in g.points],
+                    [struct.unpack('>Q', struct.pack('>d', float(x)))[0] for x in g.weights], [float(g.domain[0]), float(g.domain[1])]])
+    except Exception as e:
+        out.append(type(e).__name__)
+print('@@' + json.dumps(out))
+"""
+
+
+def _corr_fresh_process(ctx: Ctx):
+    """Class 11: the *first* constructor calls of a fresh interpreter, each class with a non-default parameter before any
+    default call was made (then the default call, then the first again), against the stateless model."""
+    import json
+    import os
+    import subprocess
+    import sys
+    rng = ctx.rng
+    specs = []
+    for cls in ALL26:
+        n = 2 * rng.randrange(2, 9) + 1 if (cls in STEP or cls == "Simpson") else rng.randrange(4, 17)
+        if cls in NOARG or cls in GAUSS:
+            specs.append((cls, (n,)))
+            continue
+        if cls in STEP:
+            nd = (n, round(rng.uniform(0.05, 0.3), 3))
+        elif cls == "GaussLaguerre":
+            nd = (n, round(rng.uniform(-0.9, 3.0), 2))
+        elif cls in ("TrefethenCC", "TrefethenGC2"):
+            nd = (n, rng.choice([1, 5]))
+        elif cls in ("TrefethenStripCC", "TrefethenStripGC2"):
+            nd = (n, round(rng.uniform(1.05, 3.0), 3))
+        elif cls == "TrefethenGeneral":
+            nd = (n, rng.choice(["GaussChebyshev", "ClenshawCurtis", "MidPoint"]), rng.choice([1, 5]))
+        else:
+            nd = (n, rng.choice(["GaussChebyshevType2", "FejerFirst", "Trapezoidal"]), round(rng.uniform(1.05, 3.0), 3))
+        specs += [(cls, nd), (cls, nd[:2] if "General" in cls else nd[:1]), (cls, nd)]
+    order = list(range(len(specs)))
+    # keep the three calls of one class in their order, shuffle the classes
+    groups = {}
+    for k, (cls, _) in enumerate(specs):
+        groups.setdefault(cls, []).append(k)
+    gl = list(groups.values())
+    rng.shuffle(gl)
+    order = [k for g in gl for k in g]
+    srcs = [_spec_src(*specs[k]) for k in order]
+    env = dict(os.environ)
+    if os.environ.get("GRID_REPO"):
+        env["PYTHONPATH"] = os.path.join(os.environ["GRID_REPO"], "src") + os.pathsep + env.get("PYTHONPATH", "")
+    try:
+        p = subprocess.run([sys.executable, "-c", FRESH, json.dumps(srcs)], env=env, cwd="/", capture_output=True, text=True, timeout=300)
+        res = next(json.loads(l[2:]) for l in p.stdout.splitlines() if l.startswith("@@"))
+    except Exception as e:
+        ctx.fail("corr", "fresh-process", f"fresh interpreter run failed: {type(e).__name__}: {e}")
+        return
+    model = [_parse(a) for a in driver_batch([_model_line(specs[k][0], *specs[k][1]) for k in order])]
+    for pos, (k, r, m) in enumerate(zip(order, res, model)):
+        cls, args = specs[k]
+        src = srcs[pos]
+        ctx.count(["fresh", src, pos], nontrivial=True, tag="fresh-process")
+        if isinstance(r, str):
+            ctx.fail("corr", f"make:{cls}", f"{src} as call {pos} of a fresh interpreter raised {r}",
+                     witness={"cls": cls, "args": list(args), "src": src, "prelude": srcs[:pos][-40:]})
+            continue
+        impl = (np.array([b2f(str(x)) for x in r[0]]), np.array([b2f(str(x)) for x in r[1]]), r[2][0], r[2][1])
+        rt, ew = _tol(cls, args[0], args[1:])
+        _compare(ctx, f"make:{cls}", f"{src} as call {pos} of a fresh interpreter", impl, m, rt, ew,
+                 {"cls": cls, "args": list(args), "src": src, "prelude": [h for h in srcs[:pos] if f"og.{cls}(" in h]})
+
+
 def corr(ctx: Ctx):
     _selfcheck_translation(ctx)
     _corr_fejer2_corrected(ctx)
+    _corr_defaults(ctx)
+    _corr_init(ctx)
     cases = _cases(ctx)
-    model = driver_batch([c["line"] for c in cases])
-    for c, ans in zip(cases, model):
+    lines = [c["line"] for c in cases]
+    answers = driver_batch(lines + [_ctor_line(l) for l in lines])
+    model, gen = answers[:len(lines)], answers[len(lines):]
+    for c, ans, gans in zip(cases, model, gen):
         impl = _impl(c["call"])
         mod = _parse(ans)
         cls, n = c["cls"], c["n"]
@@ -720,7 +959,12 @@ def corr(ctx: Ctx):
                   tag=c["tag"] + (":" + impl if rejected else ""))
         _compare(ctx, f"make:{cls}", " ".join(c["line"].split()[1:5]), impl, mod, c["rtol"], c["elementwise"],
                  {"op": c["line"][:300], "cls": cls, "n": n})
+        # the constructor regenerated statement by statement (guards, routine call, post-processing, domain, OneDGrid.__init__)
+        ctx.count(["ctor"] + c["line"].split()[1:5], nontrivial=False, tag="gen:ctor")
+        _compare(ctx, f"ctor:{cls}", " ".join(c["line"].split()[1:5]) + " [regenerated constructor]", impl, _parse(gans), c["rtol"],
+                 c["elementwise"], {"op": c["line"][:300], "cls": cls, "n": n})
     _run_src_cases(ctx, _kind_cases(ctx))
+    _corr_fresh_process(ctx)
     _run_src_cases(ctx, _large_cases(ctx))
     _corr_repeated(ctx)
 
@@ -1084,7 +1328,7 @@ def _oracle_trefethen(ctx, og, rng, nmax, reps):
         rho = round(rng.uniform(1.05, 3.5), 3)
         jobs += [("TrefethenStripCC", "ClenshawCurtis", rng.randrange(705, 2400), rho),
                  ("TrefethenStripGC2", "GaussChebyshevType2", rng.randrange(705, 2400), round(rng.uniform(1.05, 3.5), 3)),
-                 ("TrefethenStripGeneral", "TanhSinh", 2 * rng.randrange(12, 41) + 1, round(rng.uniform(1.05, 3.5), 3))]
+                 ("TrefethenStripGeneral", "TanhSinh", 2 * rng.randrange(12, 29) + 1, round(rng.uniform(1.05, 3.5), 3))]   # n <= 57: beyond, tanh(pi/2 sinh 2.9) is +-1.0 in binary64 (duplicate end nodes: rounding caveat, not a defect)
     for cls, base, n, par in jobs:
         with warnings.catch_warnings():
             warnings.simplefilter("ignore")
@@ -1234,6 +1478,26 @@ def oracle_at(ctx: Ctx, failure):
     w = failure.witness or {}
     if not isinstance(w, dict) or failure.kind != "corr":
         return
+    if failure.key == "init:OneDGrid" and "points" in w and w.get("domain") is not None:
+        # the containment clause at the disagreeing input, exact rational arithmetic as reference
+        from fractions import Fraction
+        from grid.basegrid import OneDGrid
+        pts, (lo, hi) = w["points"], w["domain"]
+        if not pts or any(x != x for x in pts) or len(w["weights"]) != len(pts) or lo > hi:
+            return
+        slack = Fraction(1, 10**7)
+        inside = all(abs(x) != math.inf and Fraction(lo) - slack <= Fraction(x) and (hi == math.inf or Fraction(x) <= Fraction(hi) + slack) for x in pts)
+        try:
+            OneDGrid(np.array(pts), np.array(w["weights"]), (lo, hi))
+            accepted = True
+        except ValueError:
+            accepted = False
+        if accepted != inside:
+            ctx.fail("oracle", "basegrid.OneDGrid:domain-check",
+                     f"OneDGrid(points, weights, ({lo}, {hi})), points in [{min(pts)!r}, {max(pts)!r}]: {'accepted' if accepted else 'rejected'}, "
+                     f"all points inside the domain up to the 1e-7 slack: {inside}", witness=w,
+                     snippet=SNIP_DOMAIN.format(p=pts, n=len(pts), dom=f"({lo!r}, {'float(\'inf\')' if hi == math.inf else repr(hi)})"))
+        return
     if "src" in w and "cls" in w:
         cls, args, src, prelude = w["cls"], [a for a in w["args"]], w["src"], list(w.get("prelude", []))
     elif "op" in w and str(w["op"]).startswith("C01.make "):
@@ -1381,6 +1645,145 @@ def _oracle_float32(ctx, og):
                      snippet=SNIP_F32.format(a=a_src, b=b_src))
 
 
+SNIP_DOMAIN = """import numpy as np
+from fractions import Fraction
+from grid.basegrid import OneDGrid
+p, w, dom = np.array({p!r}), np.ones({n}), {dom}
+lo, hi = dom
+slack = Fraction(1, 10**7)      # documented slack of the domain check
+inside = all(Fraction(lo) - slack <= Fraction(x) and (hi == float('inf') or Fraction(x) <= Fraction(hi) + slack) for x in p.tolist())
+try:
+    OneDGrid(p, w, dom); accepted = True
+except ValueError:
+    accepted = False
+assert accepted == inside, f'OneDGrid(points, weights, {{dom}}): points in [{{p.min()!r}}, {{p.max()!r}}], inside the domain up to 1e-7: {{inside}}, accepted: {{accepted}}'
+"""
+
+
+def _oracle_domain_check(ctx, rng):
+    """The containment check of `OneDGrid.__init__` (the third mechanism C01 anchors), against exact rational arithmetic:
+    a grid is accepted iff every point lies in [lo - 1e-7, hi + 1e-7].  Class 7: the extreme point 0, 0.01, 0.5, 0.99, 1.01, 2,
+    100, 1e4 slacks outside either end (not the rounding-dependent 1.0 itself: that one is in the correspondence)."""
+    from fractions import Fraction
+    from grid.basegrid import OneDGrid
+    slack = Fraction(1, 10**7)
+    for lo, hi in [(-1.0, 1.0), (0.0, math.inf), (0.0, 5.0), (-3.5, -1.25), (1.0e4, 1.0e4 + 1), (0.3, 0.7), (-2.0, 3.0), (1.0, 1.0)]:
+        for side in ("below", "above"):
+            if side == "above" and hi == math.inf:
+                continue
+            # the float the code compares with, when it lies inside the exact window (then a point on it must be accepted)
+            edge = lo - 1e-7 if side == "below" else hi + 1e-7
+            edge_in = Fraction(lo) - slack <= Fraction(edge) if side == "below" else Fraction(edge) <= Fraction(hi) + slack
+            for f in (0.0, 0.01, 0.5, 0.99, 1.01, 2.0, 100.0, 1.0e4) + (("edge",) if edge_in else ()):
+                x = edge if f == "edge" else (lo - f * 1e-7 if side == "below" else hi + f * 1e-7)
+                top = hi if hi != math.inf else lo + 9.0
+                pts = [lo + (top - lo) * rng.random() for _ in range(rng.choice([0, 2, 5]))]
+                pts.insert(rng.randrange(len(pts) + 1), x)
+                p = np.array(pts)
+                inside = all(Fraction(lo) - slack <= Fraction(v) and (hi == math.inf or Fraction(v) <= Fraction(hi) + slack) for v in pts)
+                try:
+                    g = OneDGrid(p, np.ones(len(pts)), (lo, hi))
+                    accepted = True
+                except ValueError:
+                    accepted = False
+                if accepted != inside or (accepted and (not np.array_equal(g.points, p) or tuple(g.domain) != (lo, hi))):
+                    ctx.fail("oracle", "basegrid.OneDGrid:domain-check",
+                             f"OneDGrid(points, weights, ({lo}, {hi})) with a point {f} x 1e-7 {side} the domain ({x!r}): "
+                             f"{'accepted' if accepted else 'rejected'}, all points inside the domain up to the 1e-7 slack: {inside}",
+                             witness={"points": pts, "domain": [lo, hi], "offset_in_slacks": f, "side": side},
+                             snippet=SNIP_DOMAIN.format(p=pts, n=len(pts), dom=f"({lo!r}, {'float(\'inf\')' if hi == math.inf else repr(hi)})"))
+    # shapes the check must refuse / ignore
+    p = np.array([0.1, 0.2])
+    for dom, what in (((0.0, 1.0, 2.0), "3-tuple domain"), ((0.0,), "1-tuple domain"), ((1.0, 0.0), "descending domain")):
+        try:
+            OneDGrid(p, np.ones(2), dom)
+            ctx.fail("oracle", "basegrid.OneDGrid:domain-check", f"OneDGrid accepted a {what} {dom}", witness={"domain": list(dom)})
+        except ValueError:
+            pass
+    try:
+        OneDGrid(np.ones((2, 2)), np.ones(2), (0.0, 2.0))
+        ctx.fail("oracle", "basegrid.OneDGrid:domain-check", "OneDGrid accepted a 2-D points array")
+    except ValueError:
+        pass
+    try:
+        g = OneDGrid(np.array([-50.0, 70.0]), np.ones(2))
+        if g.domain is not None:
+            ctx.fail("oracle", "basegrid.OneDGrid:domain-check", f"OneDGrid without a domain reports domain {g.domain}")
+    except ValueError:
+        ctx.fail("oracle", "basegrid.OneDGrid:domain-check", "OneDGrid(points, weights) without a domain raised ValueError")
+
+
+SNIP_USE = """import warnings; warnings.filterwarnings('ignore')
+import numpy as np
+from grid import onedgrid as og
+g = {src}
+p0, w0, d0 = g.points.copy(), g.weights.copy(), tuple(g.domain)
+{steps}
+assert np.array_equal(g.points, p0, equal_nan=True) and np.array_equal(g.weights, w0, equal_nan=True) and tuple(g.domain) == d0, 'using the grid changed it'
+"""
+
+
+def _oracle_use(ctx, og, rng):
+    """The observation points of the property used in either order and with data of extreme magnitude (classes 8, 10, 6):
+    `integrate` of scaled function values (relative to the scale), of several arrays, `g[i]` / `g[a:b]` (same domain, the
+    selected nodes), `size`, `domain` -- none of them may change the rule, whatever the order."""
+    specs = [("ClenshawCurtis", (9,)), ("GaussLegendre", (6,)), ("TanhSinh", (11, 0.2)), ("GaussLaguerre", (5, 0.5)),
+             ("TrefethenStripCC", (8, 1.3)), ("Simpson", (7,)), ("FejerFirst", (6,))]
+    for cls, args in specs:
+        src = _spec_src(cls, args)
+        with warnings.catch_warnings():
+            warnings.simplefilter("ignore")
+            g = _eval_src(og, src)
+        p0, w0, d0 = g.points.copy(), g.weights.copy(), tuple(g.domain)
+        key = f"onedgrid.{cls}:use"
+        actions = ["integrate", "scaled", "multi", "index", "slice", "size", "domain"]
+        rng.shuffle(actions)
+        for a in actions + actions[:3]:
+            x = g.points
+            if a == "integrate":
+                k = rng.randrange(0, 4)
+                got, want = float(g.integrate(x ** k)), math.fsum(float(w) * float(v) ** k for w, v in zip(w0, p0))
+                bad = not abs(got - want) <= 1e-12 * max(1.0, abs(want))
+                what = f"{src}.integrate(x^{k}) = {got!r}, sum w_i x_i^{k} = {want!r}"
+            elif a == "scaled":
+                c = rng.choice([1e-300, 1e-50, 1e-12, 1e12, 1e150])
+                f = c * (1.0 + x * x)
+                got, want = float(g.integrate(f)), c * math.fsum(float(w) * (1.0 + float(v) ** 2) for w, v in zip(w0, p0))
+                bad = not abs(got - want) <= 1e-12 * abs(want)
+                what = f"{src}.integrate({c} (1 + x^2)) = {got!r}, expected {want!r}"
+            elif a == "multi":
+                got = float(g.integrate(x, x, np.ones_like(x)))
+                want = math.fsum(float(w) * float(v) ** 2 for w, v in zip(w0, p0))
+                bad = not abs(got - want) <= 1e-12 * max(1.0, abs(want))
+                what = f"{src}.integrate(x, x, 1) = {got!r}, sum w_i x_i^2 = {want!r}"
+            elif a == "index":
+                i = rng.randrange(-len(p0), len(p0))
+                h = g[i]
+                bad = not (h.points.tolist() == [p0[i]] and h.weights.tolist() == [w0[i]] and tuple(h.domain) == d0)
+                what = f"{src}[{i}] = ({h.points.tolist()}, {h.weights.tolist()}, {h.domain})"
+                h.points[...] = -9.0
+                h.weights[...] = -9.0
+            elif a == "slice":
+                i, j = sorted((rng.randrange(len(p0)), rng.randrange(len(p0) + 1)))
+                h = g[i:j] if j > i else g[i:i + 1]
+                j = max(j, i + 1)
+                bad = not (np.array_equal(h.points, p0[i:j]) and np.array_equal(h.weights, w0[i:j]) and tuple(h.domain) == d0)
+                what = f"{src}[{i}:{j}] differs from the selected nodes / weights / domain"
+                h.points[...] = -9.0
+                h.weights[...] = -9.0
+            elif a == "size":
+                bad, what = g.size != len(p0), f"{src}.size = {g.size}"
+            else:
+                bad, what = tuple(g.domain) != d0, f"{src}.domain = {g.domain}"
+            if bad:
+                ctx.fail("oracle", key, what, witness={"call": src, "action": a})
+                break
+            if not (np.array_equal(g.points, p0, equal_nan=True) and np.array_equal(g.weights, w0, equal_nan=True) and tuple(g.domain) == d0):
+                ctx.fail("oracle", key, f"{src}: the rule changed after `{a}` (sub-grids handed out were overwritten by the caller)",
+                         witness={"call": src, "action": a})
+                break
+
+
 def oracle(ctx: Ctx, budget: str):
     """The property on the implementation: exact moments against rationals / mpmath, documented nodes and
     weights, weight = step x derivative of the node map (mpmath differentiation), order and domain."""
@@ -1397,10 +1800,33 @@ def oracle(ctx: Ctx, budget: str):
     for n in range(2, nmax + 1):
         _ref_fail(ctx, "FejerSecond", [n], f"og.FejerSecond({n})", [])
     _oracle_float32(ctx, og)
-    # rejected sizes
+    _oracle_domain_check(ctx, ctx.rng)
+    _oracle_use(ctx, og, ctx.rng)
+    # rejected sizes (every `npoints` guard: below the smallest size; even sizes of the odd-only rules)
     for cls in ALL26:
         if cls in ("TrefethenGeneral", "TrefethenStripGeneral"):
             continue
-        for n in (0, -3) + ((1,) if cls not in STEP[1:] + ["GaussChebyshevType2", "TrefethenGC2", "TrefethenStripGC2"] else ()):
+        bad = (0, -3) + ((1,) if cls not in STEP[1:] + ["GaussChebyshevType2", "TrefethenGC2", "TrefethenStripGC2"] else ())
+        if cls in STEP or cls == "Simpson":
+            bad += (2, 4, 10, 64)
+        for n in bad:
             if _build(og, cls, n) is not None:
-                ctx.fail("oracle", f"onedgrid.{cls}", f"{cls}({n}) accepted")
+                ctx.fail("oracle", f"onedgrid.{cls}", f"{cls}({n}) accepted although npoints = {n} is not admissible",
+                         witness={"class": cls, "npoints": n},
+                         snippet=f"import warnings; warnings.filterwarnings('ignore')\nfrom grid import onedgrid as og\ntry:\n    og.{cls}({n})\nexcept ValueError:\n    pass\nelse:\n    raise AssertionError('{cls}({n}) accepted')\n")
+        # inadmissible extra parameters (`h <= 0`, `alpha <= -1`, `d` not in 1 / 5 / 9) must be refused
+        n0 = 5
+        badpar = ([0.0, -0.1, -5e-324] if cls in STEP[1:] else [-1.0, -1.5] if cls == "GaussLaguerre" else
+                  [0, 3, 7, -9, 10] if cls in ("TrefethenCC", "TrefethenGC2") else [])
+        for par in badpar:
+            if _build(og, cls, n0, par) is not None:
+                ctx.fail("oracle", f"onedgrid.{cls}", f"{cls}({n0}, {par!r}) accepted although the parameter is not admissible",
+                         witness={"class": cls, "npoints": n0, "param": par},
+                         snippet=f"import warnings; warnings.filterwarnings('ignore')\nfrom grid import onedgrid as og\ntry:\n    og.{cls}({n0}, {par!r})\nexcept ValueError:\n    pass\nelse:\n    raise AssertionError('{cls}({n0}, {par!r}) accepted')\n")
+        # the smallest admissible sizes must be accepted (rules with an extra parameter: its default)
+        small = (1, 3) if cls in STEP[1:] else ((3, 5) if cls in ("TanhSinh", "Simpson") else ((1, 2) if "GC2" in cls or cls == "GaussChebyshevType2" else (2, 3)))
+        for n in small:
+            if _build(og, cls, n) is None:
+                ctx.fail("oracle", f"onedgrid.{cls}", f"{cls}({n}) rejected although npoints = {n} is admissible",
+                         witness={"class": cls, "npoints": n},
+                         snippet=f"import warnings; warnings.filterwarnings('ignore')\nfrom grid import onedgrid as og\ntry:\n    og.{cls}({n})\nexcept ValueError as e:\n    raise AssertionError('{cls}({n}) rejected: ' + str(e))\n")
